@@ -430,29 +430,33 @@ def search(ctx, q, seed=0, budget=300, max_calls=20000, stop_on_first=True):
             for _ in range(max_calls):
                 yield tuple(rng.choice(d) for d in doms)
     prev = None          # the argument objects of the last admissible call (history probe below)
+    nprobe = 0
     for combo in combos():
         kwargs = {n: copy.deepcopy(v) for n, v in zip(names, combo)}
         ghost = {g[0]: v for g, v in zip(gnames, combo[len(names):])}
+        if prev is not None and _same_shapes(prev[0], kwargs):
+            nprobe += 1
+            if nprobe % 2 == 0:
+                # history probe: the SAME argument objects as in the call just made, overwritten in place with the current values;
+                # the contract must hold again (results may depend on the current contents only, never on object identity / earlier calls)
+                reused = {}
+                for n in kwargs:
+                    if isinstance(kwargs[n], np.ndarray):
+                        np.copyto(prev[0][n], kwargs[n])
+                        reused[n] = prev[0][n]
+                    else:
+                        reused[n] = copy.deepcopy(kwargs[n])
+                r2 = ctx.check_call(q, reused, c, ghost)
+                if r2['status'] == 'violated' and witness is None:
+                    witness = {'function': q, 'inputs': {n: _jsonable(v) for n, v in zip(names, combo)}, 'ghost': {g[0]: _jsonable(v) for g, v in zip(gnames, combo[len(names):])},
+                               'history_inplace': prev[1], 'clause': r2['clause'], 'observed': r2['observed'] + ' (after an earlier call on the same array objects holding other contents)'}
+                    if stop_on_first:
+                        break
+                prev = None
         r = ctx.check_call(q, kwargs, c, ghost)
         if r['status'] == 'pre-false':
             continue
         calls += 1
-        if r['status'] == 'ok' and prev is not None and calls % 2 == 0 and _same_shapes(prev[0], kwargs):
-            # history probe: the SAME argument objects as in the previous call, overwritten in place with the current values;
-            # the contract must hold again (results may depend on the current contents only, never on object identity / earlier calls)
-            reused = {}
-            for n in kwargs:
-                if isinstance(kwargs[n], np.ndarray):
-                    np.copyto(prev[0][n], kwargs[n])
-                    reused[n] = prev[0][n]
-                else:
-                    reused[n] = copy.deepcopy(kwargs[n])
-            r2 = ctx.check_call(q, reused, c, ghost)
-            if r2['status'] == 'violated' and witness is None:
-                witness = {'function': q, 'inputs': {n: _jsonable(v) for n, v in zip(names, combo)}, 'ghost': {g[0]: _jsonable(v) for g, v in zip(gnames, combo[len(names):])},
-                           'history_inplace': prev[1], 'clause': r2['clause'], 'observed': r2['observed'] + ' (after an earlier call on the same array objects holding other contents)'}
-                if stop_on_first:
-                    break
         if r['status'] == 'ok':
             prev = (kwargs, {n: _jsonable(v) for n, v in zip(names, combo)})
         key = repr([(n, _jsonable(v)) for n, v in zip(names, combo)])
